@@ -79,7 +79,7 @@ func (Prop) Assumptions() []string {
 	}
 }
 
-var zones = []string{"UTC", "Asia/Shanghai", "America/St_Johns", "Pacific/Kiritimati", "America/Los_Angeles"}
+var zones = corpus.Zones
 
 func (Prop) Generate(seed uint64, tier string) *core.Plan {
 	r := simrt.NewRNG(seed)
@@ -470,6 +470,17 @@ func (Prop) Run(p *core.Plan) *core.Result {
 		_ = pl
 	}
 	res.Probes["operations_compared"] += compared
+	for _, op := range w.Ops {
+		if d := int(op.ClockOff / 86400); d > res.Probes["max_simulated_calendar_span_days"] {
+			res.Probes["max_simulated_calendar_span_days"] = d
+		}
+	}
+	res.Sets = map[string][]uint64{}
+	for i, o := range ref {
+		if i < 64 {
+			res.Sets["operation_outcomes"] = append(res.Sets["operation_outcomes"], core.Hash(w.Ops[i].Kind, o))
+		}
+	}
 	res.NonTrivial = res.Violation != nil || (wb.Fired[simrt.KPoolGet] > 0 && compared >= 2)
 	res.Sig = core.Hash(string(p.Workload), wb.Digest)
 	res.Sample = map[string]interface{}{"ops": w.Ops, "first_set": w.Sets[0]}
